@@ -38,6 +38,30 @@ def run_parser(tier, funcs, index, enums, res):
         PARSER_BOUNDS[tier], len(c01_parser.VOCAB), c01_parser.VOCAB, (" and of length 4 over %s" % SMALL_VOCAB if tier == "quick" else "") + " and of length 5 over %s" % (TINY_VOCAB if tier == "quick" else MID_VOCAB))
 
 
+def run_operands(tier, funcs, index, enums, res):
+    import c11_operands as c11
+    small = [w for w in c11.PAIR_VOCAB if w in ("-type", "-size", "-inum", "-mtime", "-maxdepth", "-regextype", "-printf", "-newermm", "-newermmx", "f", "q", "", "5", "+5M", "x5k",
+                                                 "99999999999999999999", "sed", "bogus", "%p\\n", "%", "-print", "!", "(", ")")]
+    plans = [(1, c11.PAIR_VOCAB), (2, c11.PAIR_VOCAB), (3, small if tier == "quick" else c11.PAIR_VOCAB)]
+    for n, vocab in plans:
+        r = c11.explore(n, funcs, index, enums, vocab)
+        res["functions_executed"].update(r.pop("functions_executed"))
+        for v in r.pop("violations"):
+            prim = next((t for t in v["tokens"] if t in c11.PRIMS + c11.NEWER_JUNK), "?")
+            res["violations"].append({"key": "operand | %s | %s" % (prim, v["what"].split("(")[0].strip()), "summary": "%s: %s" % (" ".join(repr(t) for t in v["tokens"]), v["what"]),
+                                      "replayer": "operand_cli", "tokens": v["tokens"], "what": v["what"]})
+        for k, c in r.pop("unsupported").items():
+            res["unsupported"][k] = res["unsupported"].get(k, 0) + c
+        r["bound"] = "operand primaries: %d tokens over %d words" % (n, len(vocab))
+        r["inputs_covered"] = r.pop("sentences_checked")
+        res["runs"].append(r)
+    res["target"] += ("; operand-taking primaries: build_top_level_matcher with convert_arg_to_number, convert_arg_to_comparable_value(_and_suffix), parse_str_to_newer_args, "
+                      "Type/XtypeMatcher::new, SizeMatcher::new + Unit::from_str, RegexType::from_str, Printf::new + FormatString::parse (regex crate modelled by Python re on the pattern text in the MIR)")
+    res["bounds"] += ("; operand primaries: every sequence of 1..2 tokens over %d words (%d primaries incl. -newerXY spellings with junk, %d operand words: valid values, near-misses, "
+                      "huge numbers, empty string; -print ! -o ( )) and of 3 tokens over %d words; acceptance only" % (len(c11.PAIR_VOCAB), len(c11.PRIMS) + len(c11.NEWER_JUNK),
+                                                                                                                   len(c11.OPERANDS), len(plans[2][1])))
+
+
 def run_batching(tier, funcs, index, enums, res):
     import c04_batching
     res["target"] = "CommandBuilderOptions::new + process_input with the real limiter chain; symbolic argument lengths, limits, line structure and child outcomes"
@@ -244,6 +268,8 @@ def main():
            "mir_dump_s": round(dump_s, 1), "mir_lines": text.count("\n"), "runs": [], "violations": [], "unsupported": {}, "functions_executed": set()}
     if prop in ("C01", "C11"):
         run_parser(tier, funcs, index, enums, res)
+        if prop == "C11":
+            run_operands(tier, funcs, index, enums, res)
     elif prop in ("C04", "C19"):
         run_batching(tier, funcs, index, enums, res)
     elif prop in ("C18", "C02"):
